@@ -23,6 +23,7 @@ for mid in ids:
     concrete = "no-failing-input-found" not in r.stdout
     res.setdefault(mid, {})
     res[mid].update({"property": meta["property"], "checked": sorted(set(res[mid].get("checked", []) + props)),
-                     "caught_by": sorted(set(res[mid].get("caught_by", []) + caught)), "concrete_input": concrete})
+                     "caught_by": sorted(set(res[mid].get("caught_by", []) + caught)), "concrete_input": concrete,
+                     "last_run_caught": caught})
     print(mid, "->", caught, "concrete" if concrete else "no-input", flush=True)
     json.dump(res, open(out_p, "w"), indent=1, sort_keys=True)
